@@ -58,8 +58,8 @@ theorem isaHazard_false (a : Arch) (prog : List Bits) (s : VmState) : isaHazard 
             have hi2 : (Isa.runDeferred s).inputs = s.inputs := rfl
             rw [hstep]
             cases hin : s.inputs[Isa.field (List.drop a.opBits w) a.r a.inBits]? with
-            | none => simp [Isa.exec, hv2, hi2, hv, hin]
-            | some v => simp [Isa.exec, hv2, hi2, hv, hin, hr2, hpc]
+            | none => simp [Isa.exec, Isa.pipeOps, hv2, hi2, hv, hin]
+            | some v => simp [Isa.exec, Isa.pipeOps, hv2, hi2, hv, hin, hr2, hpc]
           · simp [hr]
         · simp [hv]
       · by_cases h2 : op = "r2owa"
@@ -74,8 +74,8 @@ theorem isaHazard_false (a : Arch) (prog : List Bits) (s : VmState) : isaHazard 
               have hgd : s.outValid.getD (Isa.field (List.drop a.opBits w) a.r a.outBits) false = false := by
                 rw [List.getD_eq_getElem?_getD, hv]; rfl
               cases hreg : s.regs[Isa.field (List.drop a.opBits w) 0 a.r]? with
-              | none => simp [Isa.exec, e1, e3, hreg]
-              | some v => simp [Isa.exec, e1, e2, e3, hreg, hr, hv, hpc]
+              | none => simp [Isa.exec, Isa.pipeOps, e1, e3, hreg]
+              | some v => simp [Isa.exec, Isa.pipeOps, e1, e2, e3, hreg, hr, hv, hpc]
             · simp [hr]
           · simp [hv]
         · split
@@ -101,7 +101,7 @@ theorem rtlHazard_false (a : Arch) (prog : List Bits) (s : RtlState) (p : PortsI
       | true =>
         have : (Rtl.cycle a prog s p).pc = s.pc := by
           rw [List.getD_eq_getElem?_getD] at hr
-          simp [Rtl.cycle, Rtl.mainBlock, hop, hr, Rtl.unops, Rtl.binops]
+          simp [Rtl.cycle, Rtl.mainBlock, hop, hr, Rtl.unops, Rtl.binops, Rtl.pipeOps]
         simp [this]
   · rename_i hop
     cases hw : s.waitsm with
